@@ -20,7 +20,7 @@ B = tys.Bool
        unbounded="port offsets of B's value links",
        bounds="B: 4 nodes in a 3-level hierarchy with any deletable set removed (holes) and optional index reuse, metadata on odd nodes or none, "
               "one symbolic link plus an optional duplicate of it (quick) / <= 3 optional links (thorough): value links with symbolic offsets, order links, multi-links; A: root + 2 nodes with one optional link; "
-              "insertion parent symbolic among A's nodes; one task per deletion set",
+              "insertion parent symbolic among A's nodes or omitted; one task per deletion set",
        outside="larger B / A", opts={"max_paths": 400000, "timeout_s": 3000})
 def insert_hugr_is_isomorphic_embedding(dels):
     b, live = holey_hugr(4, tag="b.", dels=dels)
@@ -47,10 +47,11 @@ def insert_hugr_is_isomorphic_embedding(dels):
         a.add_link(gone[0].out(0), gone[1].inp(0))
         for g in gone:
             a.delete_node(g)
-    par = anodes[sym.concretize(sym.int("parent", 0, P(1, 2)))]
+    pi = sym.concretize(sym.int("parent", -1, P(1, 2)))   # -1: no parent given (the documented default: A's root)
+    par = anodes[max(pi, 0)]
     a_before = [(n.idx, a[n].op, a[n].parent, [c.idx for c in a.children(n)]) for n in a]
     b_nodes_before = [(n.idx, b[n].op, b[n].parent, [c.idx for c in b.children(n)], dict(b[n].metadata)) for n in b]
-    mapping = a.insert_hugr(b, par)
+    mapping = a.insert_hugr(b, par) if pi >= 0 else a.insert_hugr(b)
     sym.check("mapping_domain_is_B_nodes", sorted(k.idx for k in mapping) == live)
     new = [v.idx for v in mapping.values()]
     sym.check("mapping_injective_onto_fresh_nodes", len(set(new)) == len(new) and all(i >= 3 for i in new))  # (3, 4 may be reused freed indices)
